@@ -429,7 +429,7 @@ func reloadShapeUnits(tier string) []runner.Unit {
 		for _, mand := range []bool{false, true} {
 			for rep := 0; rep < 3; rep++ {
 				udp, mand, rep := udp, mand, rep
-				us = append(us, runner.Unit{Name: fmt.Sprintf("reload-shapes-udp=%v-mandatory=%v-rep%d", udp, mand, rep), Cost: 3, Run: func(u *runner.U) {
+				us = append(us, runner.Unit{Name: fmt.Sprintf("reload-shapes-udp=%v-mandatory=%v-rep%d", udp, mand, rep), Cost: map[bool]int{false: 3, true: 10}[udp], Run: func(u *runner.U) {
 					for si := range rshapes {
 						p := rparams{UDP: udp, Mandatory: mand, Rep: rep, Shape: si, Seed: int64(i + si)}
 						if si == 0 {
